@@ -14,12 +14,18 @@ FILT = re.compile(r'^test .* \.\.\. (ok|FAILED|ignored)')
 def suite(wt):
     env = dict(os.environ, TMPDIR=wt + '/tmp', CARGO_NET_OFFLINE='true')
     os.makedirs(wt + '/tmp', exist_ok=True)
+    import signal
+    pr = subprocess.Popen(['cargo', 'test', '--workspace', '--no-fail-fast', '--offline'], cwd=wt, env=env, stdout=subprocess.PIPE, stderr=subprocess.STDOUT,
+                          start_new_session=True)
     try:
-        p = subprocess.run(['cargo', 'test', '--workspace', '--no-fail-fast', '--offline'], cwd=wt, env=env, stdout=subprocess.PIPE, stderr=subprocess.STDOUT, timeout=900)
+        outb, _ = pr.communicate(timeout=900)
     except subprocess.TimeoutExpired:
+        # a mutant can make a test spin forever: kill the whole process group, test binaries included
+        os.killpg(pr.pid, signal.SIGKILL)
+        pr.communicate()
         return None
     ls = []
-    for l in p.stdout.decode(errors='replace').splitlines():
+    for l in outb.decode(errors='replace').splitlines():
         if FILT.match(l):
             l = re.sub(r' - [^ ]+ \(line [0-9]+\)', '', l)
             l = re.sub(r'\(line [0-9]+\)', '', l)
